@@ -3,6 +3,8 @@ package main
 import (
 	"fmt"
 	"go/ast"
+	"go/token"
+	"strconv"
 	"strings"
 )
 
@@ -149,11 +151,85 @@ func genJwt() {
 			if id, ok := n.(*ast.Ident); ok && id.Name == "float64" {
 				numeric = true
 			}
+			if se, ok := n.(*ast.SelectorExpr); ok && se.Sel.Name == "Number" {
+				numeric = true
+			}
 			return true
 		})
 	} else {
 		die("unixTime not found")
 	}
+	// the guard on the magnitude of the seconds: `1 << K`, in a constant named maxNumericDate or inside unixTime itself
+	dateBound := -1
+	shlOfOne := func(e ast.Expr) int {
+		if be, ok := e.(*ast.BinaryExpr); ok && be.Op == token.SHL {
+			if x, ok := be.X.(*ast.BasicLit); ok && x.Value == "1" {
+				if y, ok := be.Y.(*ast.BasicLit); ok {
+					if k, err := strconv.Atoi(y.Value); err == nil {
+						return k
+					}
+				}
+			}
+		}
+		return -1
+	}
+	for _, d := range f.Decls {
+		if gd, ok := d.(*ast.GenDecl); ok && gd.Tok == token.CONST {
+			for _, sp := range gd.Specs {
+				if vs, ok := sp.(*ast.ValueSpec); ok && len(vs.Names) == 1 && vs.Names[0].Name == "maxNumericDate" && len(vs.Values) == 1 {
+					dateBound = shlOfOne(vs.Values[0])
+				}
+			}
+		}
+	}
+	if dateBound < 0 {
+		ast.Inspect(findFunc(f, "unixTime").Body, func(n ast.Node) bool {
+			if e, ok := n.(ast.Expr); ok {
+				if k := shlOfOne(e); k >= 0 {
+					dateBound = k
+				}
+			}
+			return true
+		})
+	}
+	if dateBound < 0 {
+		die("unixTime: no guard of the form 1 << K on the number of seconds")
+	}
+	// a string under a date name falls back to the string itself: the `case string` clause of unixTime's type switch
+	// returns the switch variable
+	dateStringFallback := false
+	ast.Inspect(findFunc(f, "unixTime").Body, func(n ast.Node) bool {
+		ts, ok := n.(*ast.TypeSwitchStmt)
+		if !ok {
+			return true
+		}
+		bound := ""
+		if as, ok := ts.Assign.(*ast.AssignStmt); ok && len(as.Lhs) == 1 {
+			if id, ok := as.Lhs[0].(*ast.Ident); ok {
+				bound = id.Name
+			}
+		}
+		for _, st := range ts.Body.List {
+			cc := st.(*ast.CaseClause)
+			if len(cc.List) != 1 {
+				continue
+			}
+			if id, ok := cc.List[0].(*ast.Ident); !ok || id.Name != "string" {
+				continue
+			}
+			for _, b := range cc.Body {
+				ast.Inspect(b, func(m ast.Node) bool {
+					if ret, ok := m.(*ast.ReturnStmt); ok && len(ret.Results) == 2 {
+						if id, ok := ret.Results[0].(*ast.Ident); ok && id.Name == bound && bound != "" {
+							dateStringFallback = true
+						}
+					}
+					return true
+				})
+			}
+		}
+		return false
+	})
 	// converters report presence separately from the value (two results)
 	emptyShown := false
 	if st := findFunc(f, "str"); st != nil && st.Type.Results != nil && len(st.Type.Results.List) == 2 {
@@ -193,14 +269,16 @@ func genJwt() {
 		"def jwtParamOrder : List String := [" + strings.Join(order, ", ") + "]\n" +
 		"def jwtHeaderShown : List String := [" + strings.Join(headerShown, ", ") + "]\n" +
 		"def jwtPayloadShown : List String := [" + strings.Join(payloadShown, ", ") + "]\n" +
-		fmt.Sprintf("def jwtRangesOverMap : Bool := %v\ndef jwtNullRejected : Bool := %v\ndef jwtNumericDates : Bool := %v\ndef jwtEmptyShown : Bool := %v\n",
-			rangesOverMap, nullRejected >= 2, numeric, emptyShown) +
+		fmt.Sprintf("def jwtRangesOverMap : Bool := %v\ndef jwtNullRejected : Bool := %v\ndef jwtNumericDates : Bool := %v\ndef jwtEmptyShown : Bool := %v\ndef jwtDateBoundLog2 : Nat := %d\ndef jwtDateStringFallback : Bool := %v\n",
+			rangesOverMap, nullRejected >= 2, numeric, emptyShown, dateBound, dateStringFallback) +
 		"def jwtAlgNames : List (String × String) := [\n  " + strings.Join(algs, ",\n  ") + "]\n"
 	writeGen("Jwt", body)
 	facts["jwt.rangesOverMap"] = rangesOverMap
 	facts["jwt.nullRejected"] = nullRejected >= 2
 	facts["jwt.numericDates"] = numeric
 	facts["jwt.emptyShown"] = emptyShown
+	facts["jwt.dateBoundLog2"] = dateBound
+	facts["jwt.dateStringFallback"] = dateStringFallback
 	facts["jwt.paramCount"] = len(rows)
 	facts["jwt.algCount"] = len(algs)
 }
